@@ -600,6 +600,13 @@ class CSSStyleSheet(css_parser.stylesheets.StyleSheet):
             return
 
         # CHECK HIERARCHY
+        # a margin rule lives in an @page only (the parser discards it too)
+        if rule.type == rule.MARGIN_RULE:
+            self._log.error(
+                'CSSStylesheet: MarginRule out CSSPageRule.',
+                error=xml.dom.HierarchyRequestErr)
+            return
+
         # @charset
         if rule.type == rule.CHARSET_RULE:
             if inOrder:
